@@ -28,6 +28,7 @@ RULE = "paths are the scorer's own case distinctions (max_chunk, plate order, tr
 BUDGET_S = {"quick": 300, "thorough": 1800}
 PROVE_TIMEOUT_MS = 30000
 SOLVER_TIMEOUT_MS = 10000
+REAL_FIXTURE_VIOLATIONS = True  # a concrete fixture that fails on the real code is reported even if the modelled run fails alike
 NUMERIC_FIRST = 6  # cheap numeric falsification attempt before each solver query (candidates are replayed on the real code)
 
 
@@ -53,6 +54,7 @@ def configs(tier, seed):
         out.append(dict(name="relabel nt=4 perm=%s" % (pi,), h="relabel", nt=4, sizes=[2, 1], perm=list(pi)))
     out.append(dict(name="finite nt=3", h="finite", nt=3, sizes=[2, 1]))
     out.append(dict(name="finite nt=4", h="finite", nt=4, sizes=[1, 2]))
+    out.append(dict(name="extreme scales (concrete)", h="extreme"))
     out.append(dict(name="pad", h="pad"))
     out.append(dict(name="guards", h="guards"))
     return out
@@ -341,6 +343,49 @@ def h_finite(ctx, cfg):
     return zero_all
 
 
+def h_extreme(ctx, cfg):
+    """plates whose log-scores differ by far more than the double-precision exponent range, scored together, alone and
+    through the scorer: concrete inputs only (the symbolic model is real arithmetic; underflow cannot be expressed there)"""
+    if ctx.symbolic:
+        ctx.prove(True, "extreme scales are checked on concrete inputs (fixtures) only")
+        return 0
+    import math
+    np = ctx.np
+    gd = ctx.mod("batchie.scoring.gaussian_dbal")
+    nt = 3
+    sizes = [1, 150, 2]
+    varis = [1.0, 1e-3, 1e3]
+    means = [[[0.1 * (t + 1) + 0.01 * e for e in range(sz)] for t in range(nt)] for sz in sizes]
+    vars_ = [[[varis[p] * (1.0 + 0.1 * t) for e in range(sz)] for t in range(nt)] for p, sz in enumerate(sizes)]
+    dist = [[0.0 if i == j else 0.5 + 0.1 * (i + j) for j in range(nt)] for i in range(nt)]
+
+    def direct(m, v):
+        # stable loop evaluation: a single triple for nt=3, so the log-sum is the exponent itself
+        i, j, k = 2, 1, 0
+        acc = math.log(dist[i][j] + dist[j][k] + dist[i][k])
+        for e in range(len(m[0])):
+            v1, v2, v3 = v[i][e], v[j][e], v[k][e]
+            m1, m2, m3 = m[i][e], m[j][e], m[k][e]
+            al = v1 * v2 + v2 * v3 + v1 * v3
+            acc += 0.5 * math.log(1.0 / al) - (0.5 * v1 * v2 * v3 / (al * al)) * (v3 * (m1 - m2) ** 2 + v2 * (m1 - m3) ** 2 + v1 * (m2 - m3) ** 2)
+        return acc
+    D = np.array(dist, dtype=float)
+    M = [np.array(m, dtype=float) for m in means]
+    V = [np.array(v, dtype=float) for v in vars_]
+    together = gd.dbal_fast_gaussian_scoring_heteroscedastic(M, V, D, _FixedRng("id"), max_combos=10 ** 6).tolist()
+    ctx.observe("together", together)
+    for p in range(len(sizes)):
+        want = direct(means[p], vars_[p])
+        alone = gd.dbal_fast_gaussian_scoring_heteroscedastic([M[p]], [V[p]], D, _FixedRng("id"), max_combos=10 ** 6).tolist()[0]
+        ctx.prove(not math.isinf(together[p]) and not math.isnan(together[p]), "score is finite whenever some triple has positive distance (extreme scales)",
+                  key="extreme scales: score not finite")
+        ctx.prove(abs(together[p] - want) <= 1e-6 * max(1.0, abs(want)), "score equals the direct estimator to floating-point accuracy (extreme scales)",
+                  key="extreme scales: score differs from the direct estimator")
+        ctx.prove(abs(alone - together[p]) <= 1e-6 * max(1.0, abs(want)), "score unchanged by the other plates scored alongside (extreme scales)",
+                  key="extreme scales: score depends on the other plates")
+    return 1
+
+
 def h_pad(ctx, cfg):
     np = ctx.np
     gd = ctx.mod("batchie.scoring.gaussian_dbal")
@@ -374,4 +419,4 @@ def h_guards(ctx, cfg):
 
 def run(ctx, cfg):
     return {"hetero": h_hetero, "homo": h_homo, "scorer": h_scorer, "relabel": h_relabel, "finite": h_finite,
-            "pad": h_pad, "guards": h_guards}[cfg["h"]](ctx, cfg)
+            "pad": h_pad, "guards": h_guards, "extreme": h_extreme}[cfg["h"]](ctx, cfg)
